@@ -678,6 +678,23 @@ class _PathSubst(ast.NodeTransformer):
     return n
 
 
+def unfold_self_predicate(repo, relpath, clsname, expr):
+  """`self.m()` (no arguments) -> E when method m of the class is the single
+  statement `return E` (a predicate written out as a method); else expr."""
+  if isinstance(expr, ast.Call) and not expr.args and not expr.keywords and \
+      isinstance(expr.func, ast.Attribute) and core.is_name(expr.func.value,
+                                                            'self'):
+    q = '%s.%s' % (clsname, expr.func.attr)
+    if repo.has_func(relpath, q):
+      body = [b for b in repo.func(relpath, q).node.body
+              if not (isinstance(b, ast.Expr) and
+                      isinstance(b.value, ast.Constant))]
+      if len(body) == 1 and isinstance(body[0], ast.Return) and \
+          body[0].value is not None:
+        return body[0].value
+  return expr
+
+
 def expand_locals(path, expr, before_index=None, depth=4):
   """Copy of expr in which every local name is replaced by the access path /
   comparison it was last bound to on `path` (pure expressions only): lets a
